@@ -309,7 +309,7 @@ def check_op(case, H, share=False):
             # holpy abstracts by NAME and kind and refuses a same-name variable of another type
             expected = ('lam', uid, rx[2], ref.subst(rt, {rx: bv}), xj[1])
             if clash:
-                H.violation('op:lambda:type-clash-not-refused', case, 'Lambda(%s, %s) returned %s' % (hx, ht, result))
+                H.violation('op:lambda:type-clash-not-refused', case, 'Lambda returned %s' % ref.show(ref.from_term(result)))
                 return
         elif op in ('subst_bound', 'beta_conv'):
             aj = case['a']
@@ -496,8 +496,12 @@ def check_hist(case, H):
                     if len(bundle) > 40:
                         bundle.pop(0)
                 continue
-            elif name == 'inplace':
-                i = o[1]
+            elif name in ('inplace', 'inplace_mk'):
+                if name == 'inplace_mk':
+                    bundle.append([codec.term_dec(o[1]), ref.from_jterm(o[1])])
+                    i = len(bundle) - 1
+                else:
+                    i = o[1]
                 if not isinstance(i, int) or not (0 <= i < len(bundle)) or bundle[i][0] is None:
                     continue
                 t = _copy.copy(bundle[i][0])
@@ -773,6 +777,7 @@ def hist_strategy(opts):
         st.just(['gc']),
         st.tuples(st.just('burst'), st.integers(1, 24), st.sampled_from(['var', 'comb', 'bound'])).map(list),
         st.tuples(st.just('inplace'), idx, st.fixed_dictionaries({'a': gen.types(opts)})).map(list),
+        st.tuples(st.just('inplace_mk'), gen.terms(opts, fun(gen.SA, BOOL), (), 2), st.fixed_dictionaries({'a': gen.types(opts)})).map(list),
         st.tuples(st.just('subst_type'), idx, st.fixed_dictionaries({'a': gen.types(opts)})).map(list),
         st.tuples(st.just('beta_norm'), idx).map(list),
     )
